@@ -480,3 +480,48 @@ def atoms_of(t):
                 yield a
     else:
         yield t
+
+
+# ---------------------------------------------------------------- substitution / case splitting
+def substitute(t, old, new):
+    """replace every occurrence of subterm `old` by `new`, rebuilding polynomials"""
+    if t == old:
+        return new
+    if not isinstance(t, tuple) or not t:
+        return t
+    if is_poly(t):
+        total = ZERO
+        for m, c in t[1]:
+            term = num(c)
+            for a, e in m:
+                a2 = substitute(a, old, new)
+                term = pmul(term, ppow(as_poly(a2) if is_poly(a2) else a2, e))
+            total = padd(total, term)
+        return simp(total)
+    if isinstance(t[0], str):
+        return (t[0],) + tuple(substitute(x, old, new) if isinstance(x, tuple) else x for x in t[1:])
+    return tuple(substitute(x, old, new) if isinstance(x, tuple) else x for x in t)
+
+
+def find_ifexp(t):
+    for s in subterms(t):
+        if isinstance(s, tuple) and s and s[0] == 'ifexp':
+            return s
+    return None
+
+
+def cases(t, limit=64):
+    """[(literals, leaf)] : the conditional expression tree of t flattened; literals are (cond term, truth)"""
+    out = []
+    work = [((), t)]
+    while work:
+        lits, cur = work.pop()
+        ie = find_ifexp(cur)
+        if ie is None:
+            out.append((lits, cur))
+            continue
+        if len(out) + len(work) > limit:
+            raise AnalysisError('too many conditional cases')
+        work.append((lits + ((ie[1], True),), simp(substitute(cur, ie, ie[2]))))
+        work.append((lits + ((ie[1], False),), simp(substitute(cur, ie, ie[3]))))
+    return out
